@@ -182,6 +182,9 @@ pub struct Recovered {
     pub rd_predicate: bool,
     pub verifier: String,
     pub second_pass_differs: Option<String>,
+    /// life after recovery: None = not attempted, Some("ok") or Some(description of the failure)
+    #[serde(default)]
+    pub after_recovery: Option<String>,
 }
 
 /// `child-recover <case.json> <root> <out.json>`: reopen the image in a fresh process and dump it.
@@ -236,6 +239,16 @@ pub fn child_recover(args: &[String]) -> i32 {
                             rec.second_pass_differs = rec2.read_error;
                         } else if l2 != rec.loads || s2 != rec.scan {
                             rec.second_pass_differs = Some("contents changed after verifier pass + reopen".into());
+                        } else if rec.read_error.is_none() {
+                            // Life after recovery: the recovered store must be a sound base for
+                            // further work.  Write, flush, compact, reopen; the contents must be
+                            // the recovered contents plus the new writes.
+                            let loads = rec.loads.clone();
+                            rec.after_recovery = Some(match vcore::guard(|| life_after_recovery(&mut hs, &loads)) {
+                                Ok(Ok(())) => "ok".into(),
+                                Ok(Err(f)) => format!("{}: {}", f.signature, f.message),
+                                Err(f) => format!("panic: {}", f.message),
+                            });
                         }
                     }
                     Ok(Err(e)) => rec.second_pass_differs = Some(format!("reopen after verifier pass failed: {}", e.message)),
@@ -247,6 +260,36 @@ pub fn child_recover(args: &[String]) -> i32 {
     }
     std::fs::write(&out, serde_json::to_vec(&rec).unwrap()).expect("write recovered");
     0
+}
+
+/// Follow-up work on a recovered store: writes (single, delete, batch), flushes, compaction steps
+/// and a reopen, with every universe key read back against recovered contents + follow-ups.
+fn life_after_recovery(hs: &mut Harness, loads: &[(Vec<u8>, Option<Vec<u8>>)]) -> Result<(), vcore::Failure> {
+    use driver::Op;
+    hs.model = loads.iter().cloned().collect();
+    hs.set_tag(3_000_000);
+    let n = hs.universe.len().max(1) as u32;
+    let pick = |i: u32| -> u16 { ((i as u64 * 65536 / n as u64) as u16).saturating_add(1) };
+    let ops = vec![
+        Op::Put { k: pick(0), sz: 2 },
+        Op::Del { k: pick(1 % n) },
+        Op::Batch { items: vec![(pick(2 % n), Some(3)), (pick(3 % n), None), (pick(4 % n), Some(1))] },
+        Op::Flush,
+        Op::Put { k: pick(5 % n), sz: 4 },
+        Op::Flush,
+        Op::Compact { steps: 3 },
+        Op::Put { k: pick(0), sz: 1 },
+    ];
+    for op in ops.iter() {
+        hs.apply(op)?;
+        hs.check_reads("a follow-up operation on the recovered store")?;
+    }
+    if !driver::rd_predicate(&hs.levels()) {
+        hs.close();
+        hs.reopen_raw()?;
+        hs.check_reads("reopening the recovered store after follow-up writes")?;
+    }
+    Ok(())
 }
 
 /////////////////////////////////////////////// parent //////////////////////////////////////////////
@@ -504,6 +547,11 @@ impl CrashEnum {
             if !o.failed() {
                 if let Some(d) = &rec.second_pass_differs {
                     o.fail("crash:verifier-then-reopen-changes-contents", format!("after {desc}: {d} (verifier: {})", rec.verifier));
+                }
+                match rec.after_recovery.as_deref() {
+                    None => o.label("after-recovery:not-attempted"),
+                    Some("ok") => o.label("after-recovery:follow-ups-durable"),
+                    Some(d) => o.fail("crash:after-recovery", format!("after {desc} the store recovered correctly, but follow-up work on it went wrong: {d}")),
                 }
                 if rec.verifier.starts_with("panic") {
                     o.fail("crash:verifier-panic", format!("after {desc}: verifier pass on the recovered image {}", rec.verifier));
